@@ -21,7 +21,7 @@ def make_obs(ctx):
                               'increment': '-64..64 of mo, y, h, m, s'}))
     obs.append(Ob('contract:hms', H, 'h_contract', {'PART_CONTRACT': 1, 'SHAPE': 3}, units=UNITS, unwind=3, group='contract',
                   timeout=900, remove_bodies=core.prune_cals([]),
-                  bounds={'value': 'time-only h:m:s', 'increment': '-64..64 of h, m, s, d, w, mo, y'}))
+                  bounds={'value': 'time-only h:m:s', 'increment': '-23..23 h, -59..59 m or s, -64..64 d, w, mo, y'}))
     obs.append(Ob('contract:order:daisy', H, 'h_contract_cmp', {'PART_CONTRACT': 1, 'SHAPE': 1}, units=UNITS, unwind=4, group='contract',
                   timeout=900, remove_bodies=core.prune_cals(['daisy']),
                   bounds={'values': 'three date-only day numbers 500..905000'}))
@@ -29,46 +29,69 @@ def make_obs(ctx):
                   timeout=900, remove_bodies=core.prune_cals(['ymd']),
                   bounds={'values': 'three date-only ymd values, any year, day 1..31'}))
 
-    def uws(k):
-        # one loop per function in dseq.c's iteration core; the increment stack has one entry
-        return ['date_add.0:2', 'date_neg_dur.0:2', '__durstack_naught_p.0:2', '__seq_this.0:%d' % (k + 3),
-                '__fixup_fst.0:%d' % (k + 3), 'vf_run.0:%d' % (k + 4)]
-    import os
-    km, nm = (int(os.environ.get('VERIF_C15_K', 2)), 8) if ctx.tier == 'quick' else (4, 15)
-    for unit in ('DT_DURD', 'DT_DURWK', 'DT_DURH', 'DT_DURS'):
-        for fl in (0, 1):
-            if fl and unit in ('DT_DURH', 'DT_DURS'):
-                continue
-            obs.append(Ob('seq-days:%s:%s' % (unit[6:].lower(), 'from-last' if fl else 'from-first'), H, 'h_seq_days',
-                          {'KMAX': km, 'NMAX': nm, 'UNIT': unit, 'FROMLAST': fl}, units=UNITS, unwind=km + 3, unwindset=uws(km),
-                          group='seq-days', timeout=1500, remove_bodies=core.prune_cals(['daisy']),
-                          bounds={'FIRST': 'any day number 1000..900000', 'LAST': 'within %d days either side' % km,
-                                  'INC': '-%d..%d %s' % (nm, nm, {'DT_DURD': 'days', 'DT_DURWK': 'weeks', 'DT_DURH': 'hours (must be refused or empty)',
-                                                                  'DT_DURS': 'seconds (must be refused or empty)'}[unit]),
-                                  'skip': 'any set of weekdays but all seven', 'compute-from-last': bool(fl)}))
+    def uws(j):
+        # one loop per function in dseq.c's iteration core; the increment stack has one or two entries
+        return ['date_add.0:3', 'date_neg_dur.0:3', '__durstack_naught_p.0:3', '__seq_this.0:%d' % (j + 2), '__fixup_fst.0:%d' % (j + 3)]
+    def P(keep):
+        # getters of the other calendars as well: the values here are day numbers, ymd dates or times
+        return core.prune_cals(keep) + [r'__(%s)_get_[a-z]+' % '|'.join(c for c in ('ymd', 'ymcw', 'ywd', 'yd', 'bizda') if c not in keep)]
+    nm = 40 if ctx.tier == 'quick' else 64
+    LEM = {1: 'dir', 2: 'range', 3: 'this', 4: 'next', 5: 'from-last'}
+    # day numbers
+    for unit in ('DT_DURD', 'DT_DURWK'):
+        for lem in (1, 2, 3, 4, 5):
+            jm = (6 if ctx.tier == 'quick' else 7) if lem in (3, 4) else (2 if ctx.tier == 'quick' else 4)
+            obs.append(Ob('days:%s:%s' % (unit[6:].lower(), LEM[lem]), H, 'h_days', {'UNIT': unit, 'LEMMA': lem, 'NMAX': nm if unit == 'DT_DURD' else 8, 'JMAX': jm},
+                          units=UNITS, unwind=jm + 3, unwindset=uws(jm), group='days', timeout=1200, remove_bodies=P(['daisy']),
+                          bounds={'FIRST': 'any day number 2000..900000', 'LAST': 'within 1000 days either side', 'state': 'any day within 1100 days of FIRST',
+                                  'INC': '-%d..%d %s' % (nm if unit == 'DT_DURD' else 8, nm if unit == 'DT_DURD' else 8, unit[6:].lower()),
+                                  'skip': 'any set of weekdays but all seven', 'skip loop / anchored members': '<= %d' % jm}))
+    for unit in ('DT_DURH', 'DT_DURM', 'DT_DURS'):
+        obs.append(Ob('days:%s:dir' % unit[6:].lower(), H, 'h_days', {'UNIT': unit, 'LEMMA': 1, 'NMAX': 64, 'JMAX': 3}, units=UNITS,
+                      unwind=6, unwindset=uws(3), group='days', timeout=600, remove_bodies=P(['daisy']),
+                      bounds={'FIRST/LAST': 'any two day numbers', 'INC': '-64..64 %s: must be refused' % unit[6:].lower()}))
+    # ymd dates, months and years
     for (lo, hi) in ([(1990, 2010)] if ctx.tier == 'quick' else core.year_windows_full(400)):
-        obs.append(Ob('seq-months:%d-%d' % (lo, hi), H, 'h_seq_months', {'KMAX': 5 if ctx.tier == 'quick' else 8, 'NMAX': 14, 'YLO': lo, 'YHI': hi},
-                      units=UNITS, unwind=(5 if ctx.tier == 'quick' else 8) + 3, unwindset=uws(5 if ctx.tier == 'quick' else 8), group='seq', timeout=1500,
-                      remove_bodies=core.prune_cals(['ymd']),
-                      bounds={'FIRST': 'every day of %d..%d' % (lo, hi), 'LAST': 'any date up to 30 years either side',
-                              'INC': '-14..14 months or years', 'members': '<= KMAX+1'}))
-    kt = int(os.environ.get('VERIF_C15_K', 2)) if ctx.tier == 'quick' else 4
-    obs.append(Ob('seq-times', H, 'h_seq_times', {'KMAX': kt, 'NMAX': 59}, units=UNITS, unwind=kt + 3, unwindset=uws(kt), group='seq', timeout=1500,
-                  remove_bodies=core.prune_cals([]),
-                  bounds={'FIRST/LAST': 'any two different times of day', 'INC': '-23..23 h, -59..59 m or s; or d, w, mo, y (must be refused or empty)',
-                          'members': '<= %d' % (kt + 1)}))
+        for unit in ('DT_DURMO', 'DT_DURYR'):
+            for lem in (1, 2, 3):
+                obs.append(Ob('months:%s:%s:%d-%d' % (unit[6:].lower(), {1: 'dir', 2: 'range', 3: 'this-next'}[lem], lo, hi), H, 'h_months',
+                              {'UNIT': unit, 'LEMMA': lem, 'NMAX': 60 if unit == 'DT_DURMO' else 5, 'JMAX': 3, 'YLO': lo, 'YHI': hi}, units=UNITS,
+                              unwind=8, unwindset=uws(3), group='months', timeout=1200, remove_bodies=P(['ymd']),
+                              bounds={'FIRST': 'every day of %d..%d' % (lo, hi), 'LAST': 'any date up to 60 years either side',
+                                      'state': "any month up to 66 years either side, FIRST's day of the month",
+                                      'INC': '-60..60 months' if unit == 'DT_DURMO' else '-5..5 years'}))
+    # times of day
+    for unit in ('DT_DURH', 'DT_DURM', 'DT_DURS'):
+        for lem in (1, 2, 3):
+            obs.append(Ob('times:%s:%s' % (unit[6:].lower(), {1: 'dir', 2: 'range', 3: 'this-next'}[lem]), H, 'h_times',
+                          {'UNIT': unit, 'LEMMA': lem, 'NMAX': 59, 'JMAX': 3}, units=UNITS, unwind=6, unwindset=uws(3), group='times', timeout=1200,
+                          remove_bodies=P([]),
+                          bounds={'FIRST/LAST': 'any two different times of day', 'INC': '-23..23 h, -59..59 m or s',
+                                  'state': 'any time on any day carry -3..3 not before FIRST whose predecessor is in range'}))
+    for lem in (1, 2, 3):
+        obs.append(Ob('times:h+m:%s' % {1: 'dir', 2: 'range', 3: 'this-next'}[lem], H, 'h_times',
+                      {'UNIT': 'DT_DURH', 'UNIT2': 'DT_DURM', 'LEMMA': lem, 'NMAX': 59, 'JMAX': 3}, units=UNITS, unwind=6, unwindset=uws(3),
+                      group='times', timeout=1200, remove_bodies=P([]),
+                      bounds={'FIRST/LAST': 'any two different times of day', 'INC': 'compound: +-(1..23 h and 1..59 m), same sign',
+                              'state': 'any time on any day carry -3..3 not before FIRST whose predecessor is in range'}))
+    for unit in ('DT_DURD', 'DT_DURWK', 'DT_DURMO', 'DT_DURYR'):
+        obs.append(Ob('times:%s:dir' % unit[6:].lower(), H, 'h_times', {'UNIT': unit, 'LEMMA': 1, 'NMAX': 59, 'JMAX': 3}, units=UNITS,
+                      unwind=6, unwindset=uws(3), group='times', timeout=600, remove_bodies=P([]),
+                      bounds={'FIRST/LAST': 'any two different times of day', 'INC': '-59..59 %s: must be refused' % unit[6:].lower()},
+                      kf=['time_dateunit'] if False else []))
     return obs
 
 
 def run(tier, seed):
     return core.run_property(
         'C15', tier, seed, make_obs,
-        level_note=('bounded model checking of the iteration core of src/dseq.c called in the order of main() (weaker than '
-                    'driving main itself), assume-guarantee: dt_dtadd() inside dseq.c is its contract, the contract is proved '
-                    'against the real dt_dtadd() by the contract:* obligations; emitted values == reference progression, '
-                    'termination within the bound'),
+        level_note=('bounded model checking of the iteration core of src/dseq.c step by step from arbitrary states (direction, '
+                    'range test, this, next, from-last anchoring), for day numbers, ymd dates with month/year steps and times of day; '
+                    'assume-guarantee: dt_dtadd/dt_dtcmp/dt_dt_in_range_p inside dseq.c are contracts proved against the real '
+                    'functions by the contract:* obligations; that the steps compose to the printed progression and to termination '
+                    'is an induction argued in DESIGN 8/C15, not a solver query'),
         assumptions=['main() itself (option parsing, text parsing, promotion of mixed arguments, the switch to day counts) is not driven',
                      'date-time sequences, compound increments, alternative increments and business days not covered',
-                     'sequences with more members than the stated bound are outside',
+                     'skip sets with month/year steps and with times of day are outside',
                      'equal time-of-day bounds are outside (the tool goes once around the clock)'],
-        stubs=['dt_dtadd, dt_dtcmp, dt_dt_in_range_p inside dseq.c: vf_dtadd, vf_dtcmp, vf_in_range, the contracts proved by contract:*'])
+        stubs=['dt_dtadd, dt_dtcmp, dt_dt_in_range_p, dt_get_wday inside dseq.c: vf_dtadd, vf_dtcmp, vf_in_range, vf_get_wday, the contracts proved by contract:*'])
